@@ -114,6 +114,12 @@ CHECKS = {
    text="Eight tables, 10.8k rows quick: every builtin-type method (transcribed table) x 25 receivers x documented arity, arity-1, arity+1 x exact/alias/auto-property; member chains of depth 1-2 (3 thorough) on 8 receivers in 17 statement positions incl. every header kind; T(b) for 20 types x 6 boolean operands and T() for 22 types in 3 typing contexts; 138 optional-parameter signatures (positional^i optional^j [variadic], own package and imported) x 0..i+j+2 arguments + documented order rejections; method alias / auto-property on value, pointer, interface and non-addressable receivers, own-package exact-vs-alias precedence; 13 enumerator types (Next-style 1/2 values, XGo_Enum/Gop_Enum, value/pointer, func(yield) with 0..2 values, malformed) x 11 variable lists x 5 bodies; inline closures for 8 signatures x side-effect-free / side-effecting operands x plain / early return x 0..2 variadic arguments; big literals +-(2^k+-1), p/q and folded + - * / on pairs (XGo configuration, declarations taken from internal/builtin/big.go of the tree). The builder accepts iff go/types accepts the reference lowering; accepted rows must print, type-check and equal the reference (or a listed equivalent placement) in canonical form.",
    note="Trusted: the reference lowerings (harness transcription of the documented desugarings), go/types 1.23.5. Stubs stand in for strings/strconv/math/big signatures. Tuple casts and XGo_Rcast are not covered.",
    design="§4 C11"),
+ "C18": dict(
+   category="model_checking",
+   technique="stateless exploration of thread interleavings on the real code under a cooperative scheduler (scheduling point at the entry of every library function that refers to a package-level variable, inserted mechanically in the build overlay), preemption-bounded DFS with replay; plus a deep fingerprint of all shared state before/after every execution and a separate free-running race-detector pass",
+   text="10 programs (slices of the eight C11 extension tables, C10 statement bodies, a mixed program). Quick: 5-row programs, 30 ordered pairs (self, successor, mixed), every schedule with <=1 preemption: 35k schedules, 56M scheduling points. Thorough: 20 programs, all ordered pairs with <=1 preemption and all unordered pairs of 2-row programs with <=2 preemptions. In every schedule both outputs (files and per-row verdicts) equal the sequential builds and the deep hash of everything reachable from the 95 package-level variables of the library is unchanged; every program is also built twice sequentially with the same fingerprint. Free-running pass: all programs on 16 goroutines under -race, from a cold process and warm (640 builds quick), outputs compared with sequential builds.",
+   note="Trusted: interference needs state reachable from a package-level variable of the library (the list and the scheduling points are generated from /repo's syntax on every run); Go memory-model effects below function granularity are left to the race detector pass, which samples schedules.",
+   design="§4 C18"),
 }
 
 NOT_APPLICABLE = {
